@@ -7,6 +7,9 @@ from .interp import Interp, run_function
 from .values import VFunc, Unsupported
 
 
+LOOP_LIBRARY = {}     # (function, loop ordinal) -> loop contracts declared by the units constructed so far
+
+
 class Unit:
     """one function under contract.
 
@@ -25,6 +28,8 @@ class Unit:
         self.contracts = contracts or {}
         self.inline = inline or set()
         self.loops = loops or {}
+        for k_, v_ in self.loops.items():
+            LOOP_LIBRARY.setdefault(k_, []).append(v_)
         self.env = env or {}
         self.options = options or {}
         self.closure = closure
@@ -55,7 +60,12 @@ class Unit:
             return res
         interp = Interp(contracts=self.contracts, inline=self.inline, env_overrides=self.env,
                         options=self.options)
-        interp.loop_contracts = dict(self.loops)
+        # a loop of a helper that this unit reaches by inlining (a refactoring moved the caller's loop there) is cut at the
+        # loop contract some other unit declares for that very loop, when there is exactly one such contract; its
+        # establishment and preservation obligations are generated here, in this unit, so nothing is assumed
+        interp.loop_contracts = {k_: v_[0] for k_, v_ in LOOP_LIBRARY.items()
+                                 if all(x is v_[0] or x == v_[0] for x in v_) and k_[0].split("::")[0] != self.target.split("::")[0]}
+        interp.loop_contracts.update(self.loops)
         res.interp = interp
         closure = self.closure(interp) if callable(self.closure) else (self.closure or [])
         if "::loop#" in self.target or "::after#" in self.target:
